@@ -545,6 +545,12 @@ impl Pool for PoolImpl {
             .handle_finalization(finalization_event);
         self.send_parent_ready_events(new_parents_ready).await;
 
+        // a block in a slot below the watermark is already decided: the finality tracker ignored it,
+        // and no per-slot state is brought back for it
+        if *slot < self.first_unpruned_slot() {
+            return;
+        }
+
         self.slot_state(*slot).notify_parent_known(block_hash);
         if let Some(parent_state) = self.slot_states.get(parent_slot)
             && parent_state.is_notar_fallback_or_stronger(parent_hash)
